@@ -153,7 +153,7 @@ register("C20 Regenerated on every run: how references are split into dimension 
          "Trusted: translator/pyinterp.py + gen_validate.py (fail-closed, validated against CPython each run; the error-text classifier is trusted); Coq kernel; Model/Valid.v hand-written (tied by differential testing), reusing Model/Graph.v; DuckDB decides 'executes without error'; validate_model / validate_metric / pydantic constraints are exercised (registration must not raise for the generated definitions), not modelled. No axioms.",
          "Coq proof (membership lemmas over the validation function, C10 path-search completeness, string lemma for _cte) + model/implementation correspondence; executed single-field queries; translator-regenerated validation error table", "DESIGN.md section 6/C20")
 
-register("C05",
+register("C05 Regenerated on every run (Gen/RewriterTable_gen.v): what _extract_metrics_and_dimensions / _resolve_column make of 330 scripted SELECT lists (their ASTs executed against scripted sqlglot classes and a scripted graph); C05_extract_table proves the extraction model returns the same metrics, dimensions and aliases and rejects exactly the lists the method raises on.",
          "Machine-checked Coq theorems for SELECT trees with ANY number of fields and filters: every rendering of a structured query -- FROM a model or FROM metrics with model-qualified names, or a single-model query with unqualified names; "
          "with or without aliases and granularity suffixes; a WHERE conjunction; ORDER BY / LIMIT / OFFSET -- is rewritten to exactly that structured query (C05_qualified, C05_unqualified, C05_where_split, C05_or_kept), after which both paths call the same generator; "
          "SQL whose FROM names no model passes through (C05_passthrough_*); explicit JOINs, function calls, literals and unknown fields are rejected (C05_reject_*). "
